@@ -315,7 +315,7 @@ impl<'a> IExec<'a> {
             let k = self.sim.query(&its, "token_manager_type", (BytesN::from_array(&env, &id),).into_val(&env));
             let kv = k.val().map(|v| self.sim.val_to_sc(&v));
             let want_kind = soroban_sdk::xdr::ScVal::U32(if native { 0 } else { 2 });
-            if !ctx.check(av.as_ref() == Some(&self.tok_addr[t]) && kv == Some(want_kind.clone()), &["C11"], "invariant/registry-entry-changed", || {
+            if !ctx.check(av.as_ref() == Some(&self.tok_addr[t]) && kv == Some(want_kind.clone()), &["C11", "C05", "C18"], "invariant/registry-entry-changed", || {
                 format!("token id {} no longer maps to its first (address, manager type): {:?} {:?}", hex::encode(id), av, kv)
             }) {
                 return false;
@@ -324,7 +324,7 @@ impl<'a> IExec<'a> {
         for c in CHAINS.iter() {
             let q = self.sim.query(&its, "is_trusted_chain", (SStr::from_str(&env, c),).into_val(&env));
             let qv = q.val().and_then(|v| bool::try_from(v).ok());
-            if !ctx.check(qv == Some(self.m.trusted.contains(*c)), &["C06", "C04"], "invariant/trusted-chain-set-differs", || format!("is_trusted_chain({:?}) = {:?}", c, qv)) {
+            if !ctx.check(qv == Some(self.m.trusted.contains(*c)), &["C06", "C04", "C05", "C18"], "invariant/trusted-chain-set-differs", || format!("is_trusted_chain({:?}) = {:?}", c, qv)) {
                 return false;
             }
         }
